@@ -178,19 +178,25 @@ func runC20(c *kit.Ctx) {
 		c.Check(isKey, put, "scan-subject", hit.Pos(), "addr is compared with Addr() of each cached connection (range key of rcc.regions)",
 			"the address comparison does not range over the cached connections")
 		// every exit reachable from the hit edge returns the existing connection and never calls the factory
-		e := kit.PathFromBlock(hitBlock, kit.PathQuery{Target: func(in ssa.Instruction) bool {
+		e := kit.PathFromBlock(hitBlock, kit.PathQuery{TargetPath: func(in ssa.Instruction, path []*ssa.BasicBlock) bool {
 			if in == factoryCall.(ssa.Instruction) {
 				return true
 			}
 			if r, ok := in.(*ssa.Return); ok {
-				return len(r.Results) != 1 || !kit.Same(kit.Res(r, 0), existing)
+				full := append([]*ssa.BasicBlock{hit.Block()}, path...)
+				return len(r.Results) != 1 || !kit.Same(kit.ResolveAlong(kit.Res(r, 0), full), existing)
 			}
 			return false
 		}})
 		c.Check(e == nil, put, "hit-returns-existing", hit.Pos(), "on the equal-address edge every path returns the existing connection without calling the factory",
 			"on the equal-address edge a path creates a connection or returns something else: "+c.BlockPath(e))
 		// miss: factory call dominated by the exhausted-scan edge
-		c.Check(kit.EdgeDominates(rangeIf.Block(), kit.SuccOnFalse(rangeIf), factoryCall.Block()), put, "miss-after-full-scan", factoryCall.Pos(),
+		exh := kit.SuccOnFalse(rangeIf)
+		viaOther := kit.PathFromEntry(put, kit.PathQuery{
+			Target:   func(in ssa.Instruction) bool { return in == factoryCall.(ssa.Instruction) },
+			SkipEdge: func(from, to *ssa.BasicBlock) bool { return from == rangeIf.Block() && to == exh },
+		})
+		c.Check(viaOther == nil, put, "miss-after-full-scan", factoryCall.Pos(),
 			"the factory call is reached only through the exhausted-scan edge of the range over the cache",
 			"the factory can be called before the whole cache has been scanned for the address")
 	}
@@ -224,16 +230,45 @@ func runC20(c *kit.Ctx) {
 			if kit.IsNilConst(v) {
 				return
 			}
-			// must be dominated by select-case on done
-			sel := false
-			for _, f := range kit.FactsAt(r.Block()) {
-				if cmp, ok := kit.CanonCmp(f.Cond, f.Pol); ok && cmp.Op == token.EQL {
-					if ex, ok := cmp.X.(*ssa.Extract); ok {
-						if s, ok := ex.Tuple.(*ssa.Select); ok && len(s.States) == 1 && isLoadOfField(s.States[0].Chan, doneField) {
-							sel = true
+			// a non-nil result is chosen under the done case of a non-blocking select on c.done: the
+			// return itself, or the edge that carries the value into the returned variable
+			underDone := func(facts []kit.Fact) bool {
+				for _, f := range facts {
+					if cmp, ok := kit.CanonCmp(f.Cond, f.Pol); ok && cmp.Op == token.EQL {
+						if ex, ok := cmp.X.(*ssa.Extract); ok {
+							if s, ok := ex.Tuple.(*ssa.Select); ok && len(s.States) == 1 && isLoadOfField(s.States[0].Chan, doneField) {
+								return true
+							}
 						}
 					}
 				}
+				return false
+			}
+			sel := underDone(kit.FactsAt(r.Block()))
+			if ph, ok := v.(*ssa.Phi); ok && !sel {
+				sel = true
+				seen := map[*ssa.Phi]bool{}
+				var walk func(ph *ssa.Phi)
+				walk = func(ph *ssa.Phi) {
+					if seen[ph] {
+						return
+					}
+					seen[ph] = true
+					for i, e := range ph.Edges {
+						e = kit.Root(e)
+						if kit.IsNilConst(e) {
+							continue
+						}
+						if inner, ok := e.(*ssa.Phi); ok {
+							walk(inner)
+							continue
+						}
+						if !underDone(kit.EdgeFacts(ph.Block().Preds[i], ph.Block())) {
+							sel = false
+						}
+					}
+				}
+				walk(ph)
 			}
 			if !sel {
 				okRet = false
